@@ -7,6 +7,8 @@
 (3) every conversion function between the eight RI types is unchecked-with-inclusion, guarded, a checked
     downcast (calls the target's validating constructor on the text of self, hands the original back on
     failure), or a pure forwarder to one of those;
+(3b) exactness (convexact.py): for every function of one RI argument yielding another RI type, the regular language of texts on which it
+    yields a value, computed from its terms and site guards, equals L(source) ∩ L(target);
 (4) the two families agree: twins have equal summaries (C-sibling)."""
 import re
 
@@ -105,6 +107,10 @@ def main(run):
         if bad:
             run.violation(f'conv|{f["path"]}', f'{f["file"]}:{f["line"]} {f["path"]} -> {outs}: {bad}')
     run.floor('conversions', 30, 'conversion functions between the eight RI types')
+    # (3b) exactness: the texts on which each conversion succeeds = L(source) ∩ L(target), whatever its impl_self (TryFrom / From / AsRef / Borrow included)
+    from .. import convexact
+    convexact.check(run, P, ctx, RItypes)
+    run.floor('exactness_checks', 55, 'conversions whose success language was compared with the target language')
     # (4) family agreement
     n_pairs = sibling.check(run, P, 'C13')
     run.floor('sibling_pairs', 500, 'URI/IRI twin function pairs compared')
